@@ -150,8 +150,10 @@ def _check_api(m, v, stats):
         c = Counter(k)
         fp = _fp(target)
         stats["evaluations"] += 1
+        tab = None
         try:
-            _build(m, c).write(fp)
+            tab = _build(m, c)
+            tab.write(fp)
             raised = False
         except Injected:
             raised = True
@@ -165,6 +167,21 @@ def _check_api(m, v, stats):
                 v.append(("api:failure_swallowed:%s" % target, "evaluation %d of %d (%s) raised but write() returned normally" % (
                     k, total, kinds[k - 1])))
                 break
+            # "the whole table or nothing" also for a second attempt on the same object once the cause of the
+            # failure is gone: it must not hand out a table built from the half-finished first attempt
+            if tab is not None and k in (1, max(1, total // 2), total):
+                c.fail_at = None
+                fp2 = _fp(target)
+                try:
+                    tab.write(fp2)
+                    again = anymodel.normalise_output(target, fp2.getvalue())
+                    if again != clean:
+                        v.append(("api:retry_after_failure:%s:%s" % (target, kinds[k - 1]),
+                                  "target %s: write() failed at evaluation %d of %d (%s function); a second write() on the "
+                                  "same object then produced output that differs from the fault-free table (%d vs %d "
+                                  "characters)" % (target, k, total, kinds[k - 1], len(again), len(clean))))
+                except Exception:
+                    pass     # refusing again is 'nothing'
             left = fp.getvalue()
             if len(left) != 0:
                 v.append(("api:partial_output:%s:%s" % (target, kinds[k - 1]),
